@@ -30,15 +30,27 @@ from harness import c20_model as M
 
 ID = 'C20'
 LEVEL = 'exploration'
-RULE = ('stack: Hypothesis-generated (experimenter tree, batch); wrapper '
-        'arguments are relative (fractions of the inner range, masks, seeds) '
-        'and resolved against the inner problem statement so that every '
-        'constructor guard holds by construction; points are unit coordinates '
-        'resolved inside the top search space (bounds included). non-trivial '
-        '= at least one wrapper/combiner layer AND batch >= 2. bases: '
-        'exhaustive enumeration of base configurations, non-trivial = batch '
-        '>= 2. factory: non-trivial = at least one transformation option set '
-        'AND batch >= 2. distinct = SHA-1 of the canonical JSON case.')
+RULE = ('stack: Hypothesis-generated (experimenter tree, batch). 7/20 of the '
+        'cases are free stacks (0-3 layers drawn among the layers eligible for '
+        'the abstract type of the space below), the rest follow a recipe that '
+        'makes one clause likely to bite (Noisy under SignFlip; Discretizing '
+        'under Permuting; non-zero Shifting; Normalizing; ParamRegion on top; '
+        'HyperCube over mixed spaces; MultiObjective/Switch combiners) plus '
+        '0-2 free layers. Wrapper arguments are relative (fractions of the '
+        'inner range, masks, seeds) and resolved against the inner problem '
+        'statement so that every constructor guard holds by construction; '
+        'points are unit coordinates (a third of them 0, 1 or 0.5) resolved '
+        'inside the top search space, bounds included, duplicates included. '
+        'non-trivial = at least one wrapper/combiner layer AND batch >= 2. '
+        'bases: exhaustive enumeration of base configurations, non-trivial = '
+        'batch >= 2. factory: non-trivial = at least one transformation option '
+        'set AND batch >= 2. distinct = SHA-1 of the canonical JSON case. '
+        'Excluded by construction (outside the documented domain): '
+        'GriewankRosenbrock with dim 1 (BBOB f19 needs D >= 2), a second '
+        'Sparse layer with the same prefix, Shifting over non-DOUBLE spaces, '
+        'HyperCube/Normalizing/Permuting/Discretizing over conditional '
+        '(Switch) spaces, should_restrict=False except over total numpy '
+        'objectives (BBOB, Branin, Hartmann).')
 ASSUMPTIONS = [
     'the base experimenters are the reference for the objective value: '
     'wrappers are judged against what the wrapped experimenter returned for '
